@@ -66,6 +66,8 @@ pub enum MarkerKind {
     NoMarker,
     Coin,
     Restricted,
+    /// a restricted marker whose lifecycle status is not Active (Finalized): still a restricted marker
+    RestrictedFinalized,
     /// the module answers, but with no marker in the response
     EmptyResponse,
     /// the module answers with something that is not a marker account
@@ -77,6 +79,7 @@ impl MarkerKind {
             MarkerKind::NoMarker => "none",
             MarkerKind::Coin => "coin",
             MarkerKind::Restricted => "restricted",
+            MarkerKind::RestrictedFinalized => "restricted-finalized",
             MarkerKind::EmptyResponse => "empty-response",
             MarkerKind::Garbage => "garbage",
         }
@@ -85,6 +88,7 @@ impl MarkerKind {
         match s {
             "coin" => MarkerKind::Coin,
             "restricted" => MarkerKind::Restricted,
+            "restricted-finalized" => MarkerKind::RestrictedFinalized,
             "empty-response" => MarkerKind::EmptyResponse,
             "garbage" => MarkerKind::Garbage,
             _ => MarkerKind::NoMarker,
@@ -95,6 +99,7 @@ impl MarkerKind {
             MarkerKind::NoMarker => 'n',
             MarkerKind::Coin => 'c',
             MarkerKind::Restricted => 'R',
+            MarkerKind::RestrictedFinalized => 'F',
             MarkerKind::EmptyResponse => 'e',
             MarkerKind::Garbage => 'g',
         }
@@ -138,7 +143,7 @@ impl Querier for ChainQ {
                         // (provwasm's `Any` cannot serialise an unknown payload, so this is answered like a
                         // module error)
                         MarkerKind::Garbage => SystemResult::Ok(ContractResult::Err("unexpected account type".into())),
-                        MarkerKind::Coin | MarkerKind::Restricted => {
+                        MarkerKind::Coin | MarkerKind::Restricted | MarkerKind::RestrictedFinalized => {
                             let m = MarkerAccount {
                                 base_account: Some(BaseAccount {
                                     address: format!("marker_{}", req.id),
@@ -148,10 +153,10 @@ impl Querier for ChainQ {
                                 }),
                                 manager: "".into(),
                                 access_control: vec![],
-                                status: 3,
+                                status: if kind == MarkerKind::RestrictedFinalized { 2 } else { 3 },
                                 denom: req.id.clone(),
                                 supply: "1000".into(),
-                                marker_type: if kind == MarkerKind::Restricted { 2 } else { 1 },
+                                marker_type: if kind == MarkerKind::Coin { 1 } else { 2 },
                                 supply_fixed: false,
                                 allow_governance_control: true,
                                 allow_forced_transfer: false,
